@@ -5,9 +5,12 @@ Property theorems only; helper lemmas are in `Proofs/Svcb.lean`, the model of th
 `Model/Svcb.lean`, the statement side (`declared`, `valid`) in `Spec/Svcb.lean`, and the
 independent RFC 9460 reader `decodeRFC` at the end of `Model/Svcb.lean`.
 
-The real code violates three of the four full-strength statements; following the recipe each of
-those is kept as a `def …_full : Prop`, with a proved `…_partial` and a proved negation from a
-concrete witness (these witnesses are also the replay lines for the implementation).
+The model transcribes /repo after the repairs e9b4da5 (`FromText` skips empty `;` segments) and
+368102c (`alpnMarshaller` rejects ids of length 0 or > 255). Statements 1–3 hold at full strength.
+Statement 4 (text → wire → text → wire) is still violated by one input class, an IPv4-mapped address
+in `ipv6hint` (finding C18-ipv6hint-mapped, pinned by the package's own test vector): it is kept as
+`def …_full : Prop` with a proved negation from the witness and a proved `…_partial` for every
+accepted text without such an address.
 -/
 import DnsVerif.Proofs.Svcb
 
@@ -22,8 +25,8 @@ def wAlpnEmpty : Bytes := [0x61, 0x6c, 0x70, 0x6e, 0x3d, 0x68, 0x32, 0x7c, 0x7c,
 def wMapped : Bytes := [0x69, 0x70, 0x76, 0x36, 0x68, 0x69, 0x6e, 0x74, 0x3d, 0x3a, 0x3a, 0x66, 0x66, 0x66, 0x66, 0x3a, 0x31, 0x2e, 0x32, 0x2e, 0x33, 0x2e, 0x34]
 /-- `;mandatory=mandatory` -/
 def wMandDropped : Bytes := [0x3b, 0x6d, 0x61, 0x6e, 0x64, 0x61, 0x74, 0x6f, 0x72, 0x79, 0x3d, 0x6d, 0x61, 0x6e, 0x64, 0x61, 0x74, 0x6f, 0x72, 0x79]
-/-- `port=443;alpn="h2|h3";mandatory=port|alpn;ipv6hint=2001:db8::1;` -/
-def sample : Bytes := [0x70, 0x6f, 0x72, 0x74, 0x3d, 0x34, 0x34, 0x33, 0x3b, 0x61, 0x6c, 0x70, 0x6e, 0x3d, 0x22, 0x68, 0x32, 0x7c, 0x68, 0x33, 0x22, 0x3b, 0x6d, 0x61, 0x6e, 0x64, 0x61, 0x74, 0x6f, 0x72, 0x79, 0x3d, 0x70, 0x6f, 0x72, 0x74, 0x7c, 0x61, 0x6c, 0x70, 0x6e, 0x3b, 0x69, 0x70, 0x76, 0x36, 0x68, 0x69, 0x6e, 0x74, 0x3d, 0x32, 0x30, 0x30, 0x31, 0x3a, 0x64, 0x62, 0x38, 0x3a, 0x3a, 0x31, 0x3b]
+/-- `port=443;;alpn="h2|h3";mandatory=port|alpn;ipv6hint=2001:db8::1;` -/
+def sample : Bytes := [0x70, 0x6f, 0x72, 0x74, 0x3d, 0x34, 0x34, 0x33, 0x3b, 0x3b, 0x61, 0x6c, 0x70, 0x6e, 0x3d, 0x22, 0x68, 0x32, 0x7c, 0x68, 0x33, 0x22, 0x3b, 0x6d, 0x61, 0x6e, 0x64, 0x61, 0x74, 0x6f, 0x72, 0x79, 0x3d, 0x70, 0x6f, 0x72, 0x74, 0x7c, 0x61, 0x6c, 0x70, 0x6e, 0x3b, 0x69, 0x70, 0x76, 0x36, 0x68, 0x69, 0x6e, 0x74, 0x3d, 0x32, 0x30, 0x30, 0x31, 0x3a, 0x64, 0x62, 0x38, 0x3a, 0x3a, 0x31, 0x3b]
 /-- `mandatory=mandatory` -/
 def wSegMand : Bytes := [0x6d, 0x61, 0x6e, 0x64, 0x61, 0x74, 0x6f, 0x72, 0x79, 0x3d, 0x6d, 0x61, 0x6e, 0x64, 0x61, 0x74, 0x6f, 0x72, 0x79]
 /-- `alpn=aaaaaaaaaaaaaaa…` -/
@@ -60,79 +63,65 @@ theorem keys_strictly_increasing_wire {t : Bytes} {l : List Param} (h : fromText
 
 /-! ### 2. an independent decoder recovers exactly the declared keys and values -/
 
+/-- Whatever the code accepts is a valid declaration (`Spec.declared`: syntax, RFC 9460 value
+constraints of every key — in particular every alpn id has 1..255 octets —, no repeated key,
+`mandatory` names only present keys), where *every* non-empty `;` segment of the text counts.
+
+Before commits e9b4da5 and 368102c this was false: `alpn=h2||h3` (`wAlpnEmpty`) and an alpn id of
+256 octets (`wLong`) were accepted although they are not valid declarations. -/
+theorem accepted_is_valid_declaration {t : Bytes} {l : List Param} (h : fromText t = .ok l) :
+    ∃ d, declared t = some d :=
+  fromText_declared h
+
 /-- Full strength: whatever the code accepts is a valid declaration and the RFC 9460 reader
-recovers it from the emitted bytes. -/
-def decode_recovers_declared_full : Prop :=
-  ∀ (t : Bytes) (l : List Param), fromText t = .ok l →
-    ∃ d, declared t = some d ∧ decodeRFC (toWire l) = some d
+recovers exactly that declaration from the emitted bytes: keys strictly increasing, every value in
+the wire form of its key, `mandatory` consistent. (`Fits`: see `keys_strictly_increasing_wire`.)
 
-/-- Proved part: for a text without parameters after an empty `;` segment (`NoDrop`) that is a
-valid declaration (`declared t = some d`: in particular every alpn id has 1..255 octets) and whose
-values fit the 16-bit length field, the RFC 9460 reader recovers exactly the declaration: keys
-strictly increasing, every value in the wire form of its key, `mandatory` consistent. -/
-theorem decode_recovers_declared_partial {t : Bytes} {l : List Param} {d : List Value}
-    (h : fromText t = .ok l) (hn : NoDrop t) (hd : declared t = some d) (hf : Fits l) :
-    decodeRFC (toWire l) = some d :=
-  decode_recovers_declared' h hn hd hf
+Before commits e9b4da5 and 368102c this was false, and was proved only under the hypotheses
+`NoDrop t` (no parameter after an empty segment) and `declared t = some d`. Witnesses then:
+`;port=1` (`wDropped`) was accepted with empty wire data, the parameter after the empty segment
+being dropped; `alpn=h2||h3` (`wAlpnEmpty`) was accepted and emitted as `02 h2 00 02 h3`, which is
+malformed (RFC 9460 §7.1.1); a 256-octet alpn id (`wLong`) was emitted with length octet 0 and
+`ToText` then indexed out of range. -/
+theorem decode_recovers_declared {t : Bytes} {l : List Param}
+    (h : fromText t = .ok l) (hf : Fits l) :
+    ∃ d, declared t = some d ∧ decodeRFC (toWire l) = some d :=
+  decode_recovers_declared' h hf
 
-/-- Witness 1 (`;port=1`): accepted, the parameter after the empty segment is silently dropped —
-the declaration is `port=1`, the wire data is empty. -/
-theorem decode_recovers_declared_fails_dropped : ¬ decode_recovers_declared_full := by
-  intro hfull
-  obtain ⟨d, h1, h2⟩ := hfull wDropped [] (by decide +kernel)
-  have e1 : declared wDropped = some [.port 1] := by decide +kernel
-  have e2 : decodeRFC (toWire []) = some [] := by decide +kernel
-  rw [e1] at h1; rw [e2] at h2
-  have := (Option.some.inj h1).trans (Option.some.inj h2).symm
-  simp at this
-
-/-- Witness 2 (`alpn=h2||h3`): accepted although it declares an empty alpn id; the emitted value
-`02 h2 00 02 h3` is not a well-formed alpn value (RFC 9460 §7.1.1) and `decodeRFC` rejects it. -/
-theorem decode_recovers_declared_fails_alpn : ¬ decode_recovers_declared_full := by
-  intro hfull
-  have hacc : fromText wAlpnEmpty =
-      .ok [⟨1, [0x02, 0x68, 0x32, 0x00, 0x02, 0x68, 0x33]⟩] := by decide +kernel
-  obtain ⟨d, h1, _⟩ := hfull wAlpnEmpty _ hacc
-  have e1 : declared wAlpnEmpty = none := by decide +kernel
-  rw [e1] at h1
-  simp at h1
-
-/-- The same witness against the wire format alone: the bytes emitted for `alpn=h2||h3` are
-malformed for an RFC 9460 reader. -/
-theorem alpn_empty_id_wire_malformed :
-    ∃ l, fromText wAlpnEmpty = .ok l ∧ decodeRFC (toWire l) = none :=
-  ⟨[⟨1, [0x02, 0x68, 0x32, 0x00, 0x02, 0x68, 0x33]⟩], by decide +kernel, by decide +kernel⟩
-
-/-- An alpn id of 256 bytes is accepted, its length byte wraps to 0, the value is malformed and
-`ToText` indexes out of range (a panic in the real code). -/
-theorem alpn_long_id_malformed_and_totext_panics :
-    ∃ l, fromText wLong = .ok l ∧ decodeRFC (toWire l) = none ∧ toText l = .error .panic := by
-  refine ⟨[⟨1, 0 :: List.replicate 256 0x61⟩], by decide +kernel, by decide +kernel, by decide +kernel⟩
+/-- the former witnesses, now: the parameter after the empty segment is kept … -/
+example : fromText wDropped = .ok [⟨3, [0, 1]⟩] := by decide +kernel
+example : declared wDropped = some [.port 1] ∧ decodeRFC (toWire [⟨3, [0, 1]⟩]) = some [.port 1] := by
+  decide +kernel
+/-- … and alpn ids of length 0 or 256 are rejected -/
+example : fromText wAlpnEmpty = .error .alpnLen := by decide +kernel
+example : fromText wLong = .error .alpnLen := by decide +kernel
 
 /-! ### 3. `mandatory` naming a missing key, repeating a key or naming itself is rejected -/
 
-/-- Full strength: in an accepted text *every* segment `mandatory=v` lists distinct names, not
-`mandatory`, and only names of parameters present in the text. -/
-def mandatory_rejects_full : Prop :=
-  ∀ (t : Bytes) (l : List Param), fromText t = .ok l →
+/-- Full strength (contrapositive form of "… is rejected"): in an accepted text *every* segment
+`mandatory=v` lists distinct names, not `mandatory`, and only names of parameters present in the
+text.
+
+Before commit e9b4da5 this was false, and was proved only for the segments before the first empty
+one. Witness then: `;mandatory=mandatory` (`wMandDropped`) was accepted (as the empty list). -/
+theorem mandatory_rejects {t : Bytes} {l : List Param} (h : fromText t = .ok l) :
     ∀ seg ∈ splitOn 0x3b t, ∀ v, cut 0x3d seg = some (mandName, v) →
       (splitOn 0x7c (trimQuotes v)).Nodup ∧ mandName ∉ splitOn 0x7c (trimQuotes v) ∧
-      ∀ n ∈ splitOn 0x7c (trimQuotes v), ∃ seg' ∈ splitOn 0x3b t, ∃ v', cut 0x3d seg' = some (n, v')
+      ∀ n ∈ splitOn 0x7c (trimQuotes v), ∃ seg' ∈ splitOn 0x3b t, ∃ v', cut 0x3d seg' = some (n, v') := by
+  intro seg hseg v hcut
+  have hne : (!seg.isEmpty) = true := by
+    cases seg with
+    | nil => simp [cut] at hcut
+    | cons c cs => rfl
+  have hlive : seg ∈ liveSegs t := List.mem_filter.mpr ⟨hseg, hne⟩
+  obtain ⟨h1, h2, h3⟩ := mandatory_accepted h seg hlive v hcut
+  refine ⟨h1, h2, ?_⟩
+  intro n hn
+  obtain ⟨seg', hs', v', hc'⟩ := h3 n hn
+  exact ⟨seg', (List.mem_filter.mp hs').1, v', hc'⟩
 
-/-- Proved part (contrapositive form of "… is rejected"): the statement holds for the segments
-before the first empty one (`liveSegs`), which are all segments when `NoDrop t`. -/
-theorem mandatory_rejects_partial {t : Bytes} {l : List Param} (h : fromText t = .ok l) :
-    ∀ seg ∈ liveSegs t, ∀ v, cut 0x3d seg = some (mandName, v) →
-      (splitOn 0x7c (trimQuotes v)).Nodup ∧ mandName ∉ splitOn 0x7c (trimQuotes v) ∧
-      ∀ n ∈ splitOn 0x7c (trimQuotes v), ∃ seg' ∈ liveSegs t, ∃ v', cut 0x3d seg' = some (n, v') :=
-  mandatory_accepted h
-
-/-- Witness (`;mandatory=mandatory`): accepted (as the empty list). -/
-theorem mandatory_rejects_full_fails : ¬ mandatory_rejects_full := by
-  intro hfull
-  have h := hfull wMandDropped [] (by decide +kernel) wSegMand (by decide +kernel)
-    [0x6d, 0x61, 0x6e, 0x64, 0x61, 0x74, 0x6f, 0x72, 0x79] (by decide +kernel)
-  exact h.2.1 (by decide +kernel)
+/-- the former witness is rejected, like `mandatory=mandatory` -/
+example : fromText wMandDropped = .error .mandSelf := by decide +kernel
 
 /-! ### 4. printing the stored parameters and parsing the text again gives the same wire data -/
 
@@ -141,7 +130,9 @@ def text_wire_idempotent_full : Prop :=
     ∃ s, toText l = .ok s ∧ ∃ l', fromText s = .ok l' ∧ toWire l' = toWire l
 
 /-- Witness (`ipv6hint=::ffff:1.2.3.4`): stored as the 16-byte IPv4-mapped address, printed by
-`net.IP.String` as `1.2.3.4`, which `ipv6hintMarshaller` rejects (no colon). -/
+`net.IP.String` as `1.2.3.4`, which `ipv6hintMarshaller` rejects (no colon). Still open
+(C18-ipv6hint-mapped): `svcb_test.go` pins the acceptance, the printed form and the rejection of
+`ipv6hint=1.2.3.4`. -/
 theorem text_wire_idempotent_full_fails : ¬ text_wire_idempotent_full := by
   intro hfull
   have hacc : fromText wMapped =
@@ -158,18 +149,37 @@ theorem text_wire_idempotent_full_fails : ¬ text_wire_idempotent_full := by
   rw [e2] at h2
   simp at h2
 
+/-- Proved part: for every accepted text whose list holds no IPv4-mapped `ipv6hint` address
+(`NoMapped l`: `net.IP.To4()` is nil for each of them; trivially true without an `ipv6hint`), the
+printed text is accepted again and yields the very same parameter list, hence the same wire data.
+`ToText` does not panic. Covers the print → parse round trip of all seven value formats
+(`IP.String`/`ParseIP` for both families incl. `::` compression, `FormatUint`/`ParseUint`, base64,
+alpn lists with arbitrary octets, key names, quoting).
+
+Before commits e9b4da5 and 368102c there was no such theorem: an alpn id of 256 octets (`wLong`) was
+accepted and `ToText` then panicked; `alpn=h2||h3` printed as it was read but is not a valid list. -/
+theorem text_wire_idempotent_partial {t : Bytes} {l : List Param} (h : fromText t = .ok l)
+    (hnm : NoMapped l) :
+    ∃ s, toText l = .ok s ∧ ∃ l', fromText s = .ok l' ∧ toWire l' = toWire l := by
+  obtain ⟨s, h1, h2⟩ := text_roundtrip h hnm
+  exact ⟨s, h1, l, h2, rfl⟩
+
+/-- the hypothesis is exactly what the witness violates -/
+example : ¬ NoMapped [⟨6, [0, 0, 0, 0, 0, 0, 0, 0, 0, 0, 0xff, 0xff, 1, 2, 3, 4]⟩] := by
+  unfold NoMapped; decide +kernel
+
 /-! ### non-vacuity: a text that satisfies every hypothesis above and exercises sorting, quotes,
-the mandatory check, `::` expansion and a trailing `;` -/
+the mandatory check, `::` expansion, an empty segment in the middle and a trailing `;` -/
 
 def sampleList : List Param :=
   [⟨0, [0, 1, 0, 3]⟩, ⟨1, [2, 0x68, 0x32, 2, 0x68, 0x33]⟩, ⟨3, [1, 0xbb]⟩,
    ⟨6, [0x20, 0x01, 0x0d, 0xb8, 0, 0, 0, 0, 0, 0, 0, 0, 0, 0, 0, 1]⟩]
 
 example : fromText sample = .ok sampleList := by decide +kernel
-example : NoDrop sample := by unfold NoDrop; decide +kernel
 example : declared sample = some [.mandatory [1, 3], .alpn [[0x68, 0x32], [0x68, 0x33]], .port 443,
     .ipv6hint [[0x20, 0x01, 0x0d, 0xb8, 0, 0, 0, 0, 0, 0, 0, 0, 0, 0, 0, 1]]] := by decide +kernel
 example : Fits sampleList := by unfold Fits; decide +kernel
+example : NoMapped sampleList := by unfold NoMapped; decide +kernel
 example : decodeRFC (toWire sampleList) = declared sample := by decide +kernel
 /-- the idempotence statement does hold on the sample -/
 example : (match toText sampleList with
